@@ -644,7 +644,7 @@ func TestC13(t *testing.T) {
 	h.RunProp(t, enumVar, 0)
 	h.RunProp(t, enumFn, 0)
 	h.RunProp(t, enumMixed, 0)
-	h.RunProp(t, history, h.N(4000, 100000))
+	h.RunProp(t, history, h.N(8000, 100000))
 
 	lv, lm := 4, 3
 	if h.Thorough() {
